@@ -13,6 +13,7 @@
 #include <iostream>
 #include <mutex>
 #include <sstream>
+#include <random>
 #include <string>
 #include <thread>
 #include <vector>
@@ -209,6 +210,60 @@ static std::string destroyWithBacklog(int tasks, std::size_t workers)
   return "Y accepted_minus_ran=" + std::to_string(accepted - atReturn) + " ran_later=" + std::to_string(ran.load() - atReturn);
 }
 
+// submitters keep submitting (enqueue / enqueueWithResult / tryEnqueue) while shutdown() or stop() starts at an arbitrary
+// moment: whatever was accepted has finished (and its future is ready) when the call returns, nothing is left queued
+// and nothing starts afterwards
+static std::string raceShutdown(int trials, int submitters, std::size_t mn, std::size_t mx, const std::string &how)
+{
+  long lost = 0, futuresNotReady = 0, ranLater = 0, leftQueued = 0, acceptedTotal = 0;
+  std::mt19937 rng(static_cast<unsigned>(trials * 31 + submitters));
+  for (int t = 0; t < trials; ++t)
+  {
+    ThreadPool pool(mn, mx, ms(50), 1u << 20);
+    std::atomic<long> accepted{0}, ran{0};
+    std::atomic<bool> returned{false};
+    std::atomic<long> later{0};
+    std::mutex fm;
+    std::vector<std::future<int>> futs;
+    std::vector<std::thread> th;
+    for (int k = 0; k < submitters; ++k)
+      th.emplace_back([&, k]
+      {
+        std::vector<std::future<int>> mine;
+        for (int i = 0;; ++i)
+        {
+          auto body = [&] { if (returned.load()) later++; ran++; };
+          try
+          {
+            if ((i + k) % 3 == 0) { mine.push_back(pool.enqueueWithResult([&, body]() -> int { body(); return 1; })); accepted++; }
+            else if ((i + k) % 3 == 1) { pool.enqueue(body); accepted++; }
+            else if (pool.tryEnqueue(body)) accepted++;
+            else break; // refused
+          }
+          catch (const std::exception &) { break; } // refused
+        }
+        std::lock_guard<std::mutex> lk(fm);
+        for (auto &f : mine) futs.push_back(std::move(f));
+      });
+    std::this_thread::sleep_for(std::chrono::microseconds(200 + rng() % 2000));
+    if (how == "stop") pool.stop(); else pool.shutdown();
+    returned = true;
+    const long ranAtReturn = ran.load();
+    for (auto &x : th) x.join();
+    // everything the submitters got accepted was accepted before they saw the refusal; give a late starter its chance
+    std::this_thread::sleep_for(ms(20));
+    acceptedTotal += accepted.load();
+    lost += accepted.load() - ran.load();
+    ranLater += later.load() + (ran.load() - ranAtReturn > 0 && later.load() == 0 ? ran.load() - ranAtReturn : 0);
+    leftQueued += static_cast<long>(pool.getPendingTaskCount());
+    for (auto &f : futs)
+      if (f.wait_for(ms(0)) != std::future_status::ready) futuresNotReady++;
+  }
+  std::cerr << "raceShutdown: accepted=" << acceptedTotal << "\n";
+  return "Z never_ran=" + std::to_string(lost) + " futures_not_ready=" + std::to_string(futuresNotReady) +
+         " started_after_return=" + std::to_string(ranLater) + " left_queued=" + std::to_string(leftQueued);
+}
+
 static std::string overshoot()
 {
   std::mutex m;
@@ -255,6 +310,7 @@ int main(int argc, char **argv)
       if (p[0] == "S") r = scenario(p[1], split(p[2], ';'));
       else if (p[0] == "X") r = stress(std::stoi(p[1]), std::stoi(p[2]), std::stoul(p[3]), std::stoul(p[4]), std::stoul(p[5]));
       else if (p[0] == "O") r = overshoot();
+      else if (p[0] == "Z") r = raceShutdown(std::stoi(p[1]), std::stoi(p[2]), std::stoul(p[3]), std::stoul(p[4]), p[5]);
       else if (p[0] == "Y") r = destroyWithBacklog(std::stoi(p[1]), std::stoul(p[2]));
       else r = "BADCASE";
     }
